@@ -7,7 +7,7 @@ import re
 from .. import jmodel as J
 from ..eqmodel import eq_disjuncts, hash_paths, attrs_read
 from ..pymodel import package
-from ..valueflow import Flow, as_map, match, V, show, simp, walk
+from ..valueflow import Flow, as_map, match, V, show, simp, walk, acc_comp, expand_dict_loops
 
 EXPLANATION = (
     "R1 every character that can reach Species.alias / an element macro suffix (characters of the default element and pseudo-element symbols, "
@@ -38,6 +38,7 @@ WRAP = "naunet/templates/patches/enzo/Grid_NaunetWrapper.C.j2"
 RENDER = "naunet/console/commands/render.py"
 CONF = "naunet/configuration.py"
 PATCH = "naunet/patches.py"
+KRF = "naunet/reactions/kromereaction.py"
 SELF = ("param", "self")
 NSPEC = ("attr", ("name", "network"), "species")
 NELEM = ("attr", ("name", "network"), "elements")
@@ -83,10 +84,43 @@ def _peel_rewrites(v):
         else:
             return v, out
 
+def method_closure(pkg, cname, fn, depth=3):
+    """the function and the methods of its class it calls through self (transitively): what it computes is written there"""
+    out, todo = [fn], [(fn, 0)]
+    while todo:
+        f, d = todo.pop()
+        if d >= depth:
+            continue
+        for c in ast.walk(f):
+            if isinstance(c, ast.Call) and isinstance(c.func, ast.Attribute) and isinstance(c.func.value, ast.Name) and c.func.value.id in ("self", "cls"):
+                g = pkg.resolve(cname, c.func.attr)[1]
+                if g is not None and not any(g is x for x in out):
+                    out.append(g)
+                    todo.append((g, d + 1))
+    return out
+
+
+def _concat_parts(v):
+    """the pieces of a string built by `+`, an f-string or str.format, in order"""
+    if v[0] == "binop" and v[1] == "Add":
+        return _concat_parts(v[2]) + _concat_parts(v[3])
+    if v[0] == "fstr":
+        out = []
+        for p_ in v[1]:
+            if p_[0] == "fmt" and p_[2] is None and p_[3] == -1:
+                out += _concat_parts(p_[1])
+            else:
+                out.append(p_)
+        return out
+    if v == ("const", ""):
+        return []
+    return [v]
+
+
 def _alias_rule(ctx, pkg):
     fn = pkg.method("Species", "alias")
     ctx.saw(SP, "Species.alias")
-    fl = Flow(fn, SP)
+    fl = Flow(fn, SP, resolver=lambda name: pkg.resolve("Species", name)[1])
     st = [f for f in fl.facts if f.kind == "attrstore" and f.target == "_alias"]
     out = {"ok": False, "sanitises": False, "line": fn.lineno}
     if not st:
@@ -118,8 +152,8 @@ def _alias_rule(ctx, pkg):
     parts = None
     if v[0] == "meth" and v[2] == "format" and v[1][0] == "const" and re.fullmatch(r"(\{\})+", v[1][1] or ""):
         parts = list(v[3])
-    elif v[0] == "fstr":
-        parts = [p[1] if p[0] == "fmt" else p for p in v[1]]
+    elif v[0] == "fstr" or (v[0] == "binop" and v[1] == "Add"):
+        parts = [p[1] if p[0] == "fmt" else p for p in _concat_parts(v)]
     if not parts or len(parts) < 3:
         ctx.unrec("R6", "Species.alias", (SP, st[0].line), f"alias is not <phase><basename><charge suffix>: {show(v)[:100]}")
         return out
@@ -147,7 +181,7 @@ def _alias_rule(ctx, pkg):
               expected="'I' * (self.charge + 1) if self.charge >= 0 else 'M' * abs(self.charge)", found=show(suffix)[:120])
     out["ok"] = phase == want_phase and ok_suffix
     out["base"] = base
-    src = ast.unparse(fn)
+    src = "\n".join(ast.unparse(f) for f in method_closure(pkg, "Species", fn))
     out["sanitises"] = bool(re.search(r"re\.sub\(|\.translate\(|isalnum|isidentifier", src))
     return out
 
@@ -178,7 +212,7 @@ def fold(v, env, flow=None):
     if k == "cmp" and len(v[1]) == 1:
         a, b = fold(v[2][0], env, flow), fold(v[2][1], env, flow)
         return {"Lt": a < b, "LtE": a <= b, "Gt": a > b, "GtE": a >= b, "Eq": a == b, "NotEq": a != b}[v[1][0]]
-    if k == "ifexp":
+    if k in ("ifexp", "phi"):        # phi: the two returns of an inlined helper `if c: return a` / `return b`
         return fold(v[2], env, flow) if fold(v[1], env, flow) else fold(v[3], env, flow)
     if k == "call" and v[1] == ("global", "abs") and len(v[2]) == 1:
         return abs(fold(v[2][0], env, flow))
@@ -241,8 +275,9 @@ def _r2(ctx, pkg):
     afn = pkg.method("Species", "alias")
     eqf = pkg.method("Species", "__eq__")
     ctx.saw(SP, "Species.basename")
-    bsrc = ast.unparse(bfn)
-    asrc = ast.unparse(afn)
+    # what the two properties compute may sit in helper methods they call
+    bsrc = "\n".join(ast.unparse(f) for f in method_closure(pkg, "Species", bfn))
+    asrc = "\n".join(ast.unparse(f) for f in method_closure(pkg, "Species", afn))
     disj, _ = eq_disjuncts(eqf)
     ice = [d for d in disj if ("both", "is_surface") in d]
     compared = {l[1] for d in ice for l in d if l[0] == "eq"}
@@ -289,46 +324,83 @@ def _first_key(v):
     return ("filter", "first", ("call", ("attr", ("attr", v, "element_count"), "keys"), (), ()), (), ())
 
 
-def _def_loops(ctx, rel, prefix_text, seq, suffix_of, what):
-    """loops `for v in <seq>` whose body is `<prefix_text><suffix(v)> <sep> loop.index0`."""
-    items = J.inline_sets(J.flatten(ctx.tree, rel, {}))       # `{% set %}` locals / macro parameters substituted, "lit" ~ x split
+def _jsubst(e, sets):
+    """the expression with the names bound by earlier `{% set %}` / macro parameters replaced by what they stand for"""
+    if isinstance(e, tuple) and len(e) == 2 and e[0] == "name" and e[1] in sets:
+        return sets[e[1]]
+    if isinstance(e, tuple):
+        return tuple(_jsubst(x, sets) if isinstance(x, tuple) else x for x in e)
+    return e
+
+
+def _target_names(tg):
+    return [tg[1]] if tg[0] == "name" else [n for x in tg[1] for n in _target_names(x)] if tg[0] in ("tuple", "list") else []
+
+
+def _stream(items):
+    """walk_items as the text it writes: yields (item, stack) like J.walk_items, but an output has the `{% set %}` names (macro
+    parameters included) it mentions replaced by their values, and `{{ "lit" ~ x }}` / `{{ "lit" }}` arrive as text + output --
+    `IDX_{{ "ELEM_" ~ k }}` and `IDX_ELEM_{{ k }}` are the same stream.  `set` items are passed through (value resolved)."""
+    sets = {}
+    for it, st in J.walk_items(items):
+        k = it[0]
+        if k == "set":
+            v = _jsubst(it[2], sets)
+            if it[1][0] == "name":
+                sets[it[1][1]] = v
+            yield ("set", it[1], v) + tuple(it[3:]), st
+        elif k == "for":
+            for n in _target_names(it[1]):
+                sets.pop(n, None)          # the loop re-binds the name
+            yield it, st
+        elif k == "out":
+            e = _jsubst(it[1], sets)
+            parts = list(e[1]) if e[0] == "concat" else [e]
+            for p_ in parts:
+                if p_[0] == "const" and isinstance(p_[1], str):
+                    yield ("text", p_[1]) + tuple(it[2:]), st
+                else:
+                    yield ("out", p_) + tuple(it[2:]), st
+        else:
+            yield it, st
+
+
+def _loop_stream(loop):
+    """the direct body of a for item as [("text", s) | ("out", e)], or None when it holds a nested loop"""
+    if any(x[0] == "for" for x in loop[3]):
+        return None
+    return [x for x, _ in _stream(loop[3]) if x[0] in ("text", "out")]
+
+
+def _def_loops(ctx, rel, prefix_re, seq, suffix_of, what, expected):
+    """loops `for v in <seq>` whose body writes `<prefix><suffix(v)> <sep> loop.index0` (through {% set %} names or a macro alike)."""
+    items = J.flatten(ctx.tree, rel, {})
     ctx.saw(rel)
     hits = []
-    for it, st in J.walk_items(items):
+    for it, st in _stream(items):
         if it[0] == "for":
-            txt = "".join(x[1] for x in it[3] if x[0] == "text")
-            if prefix_text in txt and not any(x[0] == "for" for x in it[3]):
-                hits.append(it)
+            body = _loop_stream(it)
+            if body is not None and re.search(prefix_re, "".join(x[1] if x[0] == "text" else "\x00" for x in body)):
+                hits.append((it, body))
     key = f"{rel.split('/')[-1]}:{what}"
     if len(hits) != 1:
-        (ctx.bad if hits else ctx.missing)("R4", key, (rel, 0), f"expected one loop defining {prefix_text}.., found {len(hits)}")
+        (ctx.bad if hits else ctx.missing)("R4", key, (rel, 0), f"expected one loop defining {expected}, found {len(hits)}")
         return
-    it = hits[0]
-    outs = [x for x in it[3] if x[0] == "out"]
+    it, body = hits[0]
+    outs = [x for x in body if x[0] == "out"]
     ok = it[2] == seq and it[7] is None and len(outs) == 2 and outs[0][1] == suffix_of(it[1]) and outs[1][1] == IDX0
     ctx.check(ok, "R4", key, (rel, it[5]),
-              f"{prefix_text}<suffix> is paired with loop.index0 over the unfiltered {J.show(seq)}",
-              expected=f"for v in {J.show(seq)}: {prefix_text}{{{{ {J.show(suffix_of(('name', 'v')))} }}}} {{{{ loop.index0 }}}}",
+              f"{expected} is paired with loop.index0 over the unfiltered {J.show(seq)}",
+              expected=f"for v in {J.show(seq)}: {expected.split('<')[0]}{{{{ {J.show(suffix_of(('name', 'v')))} }}}} {{{{ loop.index0 }}}}",
               found=f"for {J.show(it[1])} in {J.show(it[2])}: " + " ".join(J.show(o[1]) for o in outs))
 
 
 def _r4_defs(ctx, pkg):
     alias = lambda v: ("attr", v, "alias")
     for rel in (MACROS, PYIDX):
-        _def_loops(ctx, rel, "IDX_ELEM_", NELEM, _first_key, "IDX_ELEM_ definitions")
-        # species loop: text 'IDX_' but not 'IDX_ELEM_'
-        items = J.inline_sets(J.flatten(ctx.tree, rel, {}))
-        hits = [it for it, st in J.walk_items(items) if it[0] == "for" and re.search(r"IDX_(?!ELEM_)", "".join(x[1] for x in it[3] if x[0] == "text"))]
-        key = f"{rel.split('/')[-1]}:IDX_ definitions"
-        if len(hits) != 1:
-            (ctx.bad if hits else ctx.missing)("R4", key, (rel, 0), f"expected one loop defining IDX_<alias>, found {len(hits)}")
-            continue
-        it = hits[0]
-        outs = [x for x in it[3] if x[0] == "out"]
-        ok = it[2] == NSPEC and it[7] is None and len(outs) == 2 and outs[0][1] == alias(it[1]) and outs[1][1] == IDX0
-        ctx.check(ok, "R4", key, (rel, it[5]), "IDX_<alias> is paired with loop.index0 over the unfiltered network.species",
-                  expected="for spec in network.species: IDX_{{ spec.alias }} {{ loop.index0 }}",
-                  found=f"for {J.show(it[1])} in {J.show(it[2])}: " + " ".join(J.show(o[1]) for o in outs))
+        _def_loops(ctx, rel, r"IDX_ELEM_\x00", NELEM, _first_key, "IDX_ELEM_ definitions", "IDX_ELEM_<suffix>")
+        # species loop: 'IDX_' directly followed by the output, not 'IDX_ELEM_'
+        _def_loops(ctx, rel, r"IDX_\x00", NSPEC, alias, "IDX_ definitions", "IDX_<alias>")
     # constants.py: lists and counts
     ctx.saw(PYCONST)
     items = J.flatten(ctx.tree, PYCONST, {})
@@ -359,32 +431,53 @@ def _r4_defs(ctx, pkg):
         ctx.check(ok, "R5", f"constants.py:{name}", (PYCONST, it[2] if it is not None and it[0] == "out" else 0), f"{name} = {J.show(seq)} | length",
                   found=J.show(it[1]) if it is not None and it[0] == "out" else "missing")
     # render.py summary and NetworkConfiguration
+    # by role: the lists are what is stored under summary["list_of_..."], in whichever method of the command builds the table
+    # (a `for key, names in {..}.items(): summary[f"list_of_{key}"] = names` loop is one store per entry)
+    rc = pkg.cls("RenderCommand")
     h = pkg.method("RenderCommand", "handle")
     ctx.saw(RENDER, "RenderCommand.handle")
-    fl = Flow(h, RENDER)
-    net = None
-    # by role: the lists are what is stored under summary["list_of_..."]
-    stored = {f.index[1]: f for f in fl.facts if f.kind == "store" and f.index and f.index[0] == "const" and isinstance(f.index[1], str) and f.index[1].startswith("list_of_")}
+    stored, counts = {}, []
+    for mname, mfn in rc.methods.items():
+        mfl = Flow(mfn, RENDER)
+        for f in mfl.facts:
+            if f.kind != "store" or f.index is None:
+                continue
+            for idx, val in expand_dict_loops(f):
+                if idx[0] == "const" and isinstance(idx[1], str) and idx[1].startswith("list_of_"):
+                    stored[idx[1]] = (mfl, f, val)
+                elif idx[0] == "const" and idx[1] in ("num_of_elements", "num_of_species"):
+                    counts.append((idx[1], f, val))
+                elif idx[0] != "const" and any(isinstance(x, tuple) and x[:1] == ("const",) and isinstance(x[1], str) and x[1].startswith(("list_of_", "num_of_")) for x in walk(idx)):
+                    ctx.unrec("R4", f"render.py summary:{show(idx)[:40]}", (RENDER, f.line), "a summary key that is not a literal (nor a literal-table loop)")
     for nm, (skey, attr, fld) in {"all_elements": ("list_of_elements", "elements", "name"), "all_species": ("list_of_species", "species", "name"),
                                   "all_alias": ("list_of_species_alias", "species", "alias")}.items():
-        sf = stored.get(skey)
-        a = [(sf.value, None, None, sf.line)] if sf is not None else []
-        ok = False
-        found_s = ""
-        if a:
-            m = as_map(simp(a[-1][0]))
-            if m:
-                bv, body, base, ifs = m
-                found_s = f"[{show(body)} for .. in {show(base)}]"
-                ok = body == ("attr", bv, fld) and not ifs and base[0] == "attr" and base[2] == attr and base[1][0] != "const"
-                net = base[1]
-        ctx.check(ok, "R4", f"render.py summary:{nm}", (RENDER, a[-1][3] if a else h.lineno), f"{nm} = [x.{fld} for x in net.{attr}] (same sequence, same order)", found=found_s)
-    for f in fl.facts:
-        if f.kind == "store" and f.index and f.index[0] == "const" and f.index[1] in ("num_of_elements", "num_of_species"):
-            attr = "elements" if "elements" in f.index[1] else "species"
-            v = simp(f.value)
-            ok = v[0] == "call" and v[1] == ("global", "len") and v[2][0][0] == "attr" and v[2][0][2] == attr
-            ctx.check(ok, "R5", f"render.py summary:{f.index[1]}", (RENDER, f.line), f"{f.index[1]} = len(net.{attr})", found=show(v)[:60])
+        key = f"render.py summary:{nm}"
+        if skey not in stored:
+            ctx.missing("R4", key, (RENDER, h.lineno), f"no store of summary[{skey!r}] found in RenderCommand")
+            continue
+        mfl, sf, val = stored[skey]
+        val = simp(val)
+        if val[0] == "acc":
+            # a list filled by `x.append(..)` in a loop next to other statements
+            comp = acc_comp(mfl, val[1])
+            if comp is None:
+                ctx.unrec("R4", key, (RENDER, sf.line), f"the list `{val[1]}` is accumulated in a way that is not understood (not one append in one loop)")
+                continue
+            val = comp
+        m = as_map(val)
+        if not m:
+            ctx.unrec("R4", key, (RENDER, sf.line), f"summary[{skey!r}] is not a list built from a network sequence: {show(val)[:100]}")
+            continue
+        bv, body, base, ifs = m
+        ok = body == ("attr", bv, fld) and not ifs and base[0] == "attr" and base[2] == attr and base[1][0] != "const"
+        ctx.check(ok, "R4", key, (RENDER, sf.line), f"{nm} = [x.{fld} for x in net.{attr}] (same sequence, same order)",
+                  found=f"[{show(body)} for .. in {show(base)}{' if ' + ' and '.join(show(c) for c in ifs) if ifs else ''}]")
+    for name, f, v in counts:
+        attr = "elements" if "elements" in name else "species"
+        v = simp(v)
+        ok = v[0] == "call" and v[1] == ("global", "len") and len(v[2]) == 1 and v[2][0][0] == "attr" and v[2][0][2] == attr
+        ctx.check(ok, "R5", f"render.py summary:{name}", (RENDER, f.line), f"{name} = len(net.{attr})", found=show(v)[:60])
+    ctx.floor("R5", "render.py summary counts", len(counts), 2, (RENDER, h.lineno))
     ci = pkg.cls("NetworkConfiguration")
     init = ci.methods["__init__"]
     ctx.saw(CONF, "NetworkConfiguration.__init__")
@@ -430,17 +523,13 @@ def _r4_uses(ctx):
         for cfg in cfgs:
             items = J.flatten(ctx.tree, rel, cfg)
             prev = ""
-            sets_ = {}
-            for it, st in J.walk_items(items):
+            # `{% set elemname = .. %}` / macro parameters: a later {{ elemname }} is that expression; {{ "ELEM_" ~ x }} is text + {{ x }}
+            for it, st in _stream(items):
                 if it[0] == "text":
-                    prev = it[1]
+                    prev += it[1]
                     continue
-                if it[0] == "set" and it[1][0] == "name":
-                    sets_[it[1][1]] = it[2]        # `{% set elemname = .. %}`: a later {{ elemname }} is that expression
                 if it[0] != "out":
                     continue
-                if it[1][0] == "name" and it[1][1] in sets_:
-                    it = ("out", sets_[it[1][1]]) + tuple(it[2:])
                 m = re.search(r"IDX_(ELEM_)?$", prev)
                 prev = ""
                 if not m:
@@ -582,14 +671,119 @@ def _r6(ctx, pkg, rule):
                       expected=want, found=al)
     # KROME suffix rewriting (shared with C12.R3)
     kfn = pkg.method("KROMEReaction", "rateexpr")
-    subs = []
-    for c in ast.walk(kfn):
-        if isinstance(c, ast.Call) and ast.unparse(c.func) == "re.sub" and len(c.args) >= 2 and all(isinstance(a, ast.Constant) for a in c.args[:2]):
-            subs.append((c.args[0].value, c.args[1].value))
-    tab = {p[-1] if not p.endswith(r"\)") else ")": r for p, r in subs if p.startswith("(idx_")}
+    kfile = pkg.cls("KROMEReaction").file
+    subs, unresolved = regex_rewrites(pkg, "KROMEReaction", kfn)
+    tab = {p[-1] if not p.endswith(r"\)") else ")": r for p, r, _ in subs if p.startswith("(idx_")}
     want = {"p": r"\1II", "m": r"\1M", ")": r"\1I)"}
-    ctx.check(tab == want, "R6", "KROME idx_ suffixes", ("naunet/reactions/kromereaction.py", kfn.lineno),
-              "idx_Xp -> IDX_XII, idx_Xm -> IDX_XM, idx_X) -> IDX_XI): the suffixes Species.alias gives to charge +1, -1, 0", expected=str(want), found=str(tab))
+    if tab != want and unresolved:
+        ctx.unrec("R6", "KROME idx_ suffixes", (kfile, unresolved[0][1]), f"a regular-expression rewriting of the rate text has a pattern / replacement that is not a literal: {unresolved[0][0][:80]}")
+    else:
+        ctx.check(tab == want, "R6", "KROME idx_ suffixes", (kfile, kfn.lineno),
+                  "idx_Xp -> IDX_XII, idx_Xm -> IDX_XM, idx_X) -> IDX_XI): the suffixes Species.alias gives to charge +1, -1, 0", expected=str(want), found=str(tab))
+
+
+def regex_rewrites(pkg, cname, fn):
+    """Every regular-expression substitution a method applies (itself, or in the methods of its class / the functions of its
+    module it calls): `re.sub(P, R, ..)`, `re.compile(P).sub(R, ..)`, `pat.sub(R, ..)` with P and R literals -- written in place,
+    bound to a name once, or the columns of a literal table (module / class level, or local) the call sits in a loop over.
+    -> ([(pattern, replacement, line)], [(source text, line)] of substitutions whose pattern / replacement is not a literal)"""
+    file = pkg.cls(cname).file
+    mod = pkg.modules[file]
+    funcs, todo = [fn], [(fn, 0)]
+    while todo:
+        f, d = todo.pop()
+        if d >= 3:
+            continue
+        for c in ast.walk(f):
+            if not isinstance(c, ast.Call):
+                continue
+            g = None
+            if isinstance(c.func, ast.Attribute) and isinstance(c.func.value, ast.Name) and c.func.value.id in ("self", "cls", cname):
+                g = pkg.resolve(cname, c.func.attr)[1]
+            elif isinstance(c.func, ast.Name):
+                g = pkg.functions.get((file, c.func.id))
+            if g is not None and not any(g is x for x in funcs):
+                funcs.append(g)
+                todo.append((g, d + 1))
+
+    def once(scope_body, name):
+        """the single value a name is bound to by plain assignment in a scope, else None"""
+        vals = [st.value for st in scope_body if isinstance(st, (ast.Assign, ast.AnnAssign)) and st.value is not None
+                for t in (st.targets if isinstance(st, ast.Assign) else [st.target]) if isinstance(t, ast.Name) and t.id == name]
+        return vals[0] if len(vals) == 1 else None
+
+    def table(e, f):
+        """literal sequence an iterable expression denotes: written in place, a local / module-level name, a class attribute"""
+        if isinstance(e, (ast.Tuple, ast.List)):
+            return e
+        if isinstance(e, ast.Name):
+            v = once([n for n in ast.walk(f) if isinstance(n, ast.stmt)], e.id) or once(mod.body, e.id)
+            return table(v, f) if v is not None else None
+        if isinstance(e, ast.Attribute) and isinstance(e.value, ast.Name) and e.value.id in ("self", "cls", cname):
+            v = pkg.resolve_attr(cname, e.attr)[1]
+            return table(v, f) if v is not None else None
+        if isinstance(e, ast.Call) and isinstance(e.func, ast.Name) and e.func.id in ("list", "tuple", "tqdm") and len(e.args) == 1:
+            return table(e.args[0], f)
+        return None
+
+    def bindings(c, f):
+        """[{loop target name: element expr}] for the literal-table loops the call sits in (one dict per row; [{}] outside loops)"""
+        rows = [{}]
+        for lp in ast.walk(f):
+            if isinstance(lp, ast.For) and any(n is c for b in lp.body for n in ast.walk(b)):
+                tab = table(lp.iter, f)
+                if tab is None:
+                    continue
+                new = []
+                for el in tab.elts:
+                    if isinstance(lp.target, ast.Name):
+                        m = {lp.target.id: el}
+                    elif isinstance(lp.target, (ast.Tuple, ast.List)) and isinstance(el, (ast.Tuple, ast.List)) and len(el.elts) == len(lp.target.elts) \
+                            and all(isinstance(t, ast.Name) for t in lp.target.elts):
+                        m = {t.id: x for t, x in zip(lp.target.elts, el.elts)}
+                    else:
+                        m = {}
+                    new += [dict(r, **m) for r in rows]
+                rows = new or rows
+        return rows
+
+    def text(e, env, f, depth=0):
+        if isinstance(e, ast.Constant) and isinstance(e.value, str):
+            return e.value
+        if depth > 4:
+            return None
+        if isinstance(e, ast.Call) and ast.unparse(e.func) == "re.compile" and e.args:
+            return text(e.args[0], env, f, depth + 1)
+        if isinstance(e, ast.Name):
+            if e.id in env:
+                return text(env[e.id], env, f, depth + 1)
+            v = once([n for n in ast.walk(f) if isinstance(n, ast.stmt)], e.id) or once(mod.body, e.id)
+            return text(v, env, f, depth + 1) if v is not None else None
+        if isinstance(e, ast.Attribute) and isinstance(e.value, ast.Name) and e.value.id in ("self", "cls", cname):
+            v = pkg.resolve_attr(cname, e.attr)[1]
+            return text(v, env, f, depth + 1) if v is not None else None
+        return None
+
+    subs, unresolved = [], []
+    for f in funcs:
+        for c in ast.walk(f):
+            if not (isinstance(c, ast.Call) and isinstance(c.func, ast.Attribute) and c.func.attr in ("sub", "subn")):
+                continue
+            if ast.unparse(c.func.value) == "re":
+                if len(c.args) < 3:
+                    continue
+                pat_e, rep_e = c.args[0], c.args[1]
+            else:
+                if not c.args:
+                    continue
+                pat_e, rep_e = c.func.value, c.args[0]
+            for env in bindings(c, f):
+                pat, rep = text(pat_e, env, f), text(rep_e, env, f)
+                if pat is None or rep is None:
+                    unresolved.append((ast.unparse(c), c.lineno))
+                else:
+                    subs.append((pat, rep, c.lineno))
+    return subs, unresolved
 
 
 # ------------------------------------------------------------------ R7 (shared with C15.R2)
@@ -757,56 +951,155 @@ def _r11(ctx, pkg):
                   expected=f"[s for s in species_network if s {'in' if op == 'In' else 'not in'} [Species(n) for n in EnzoPatch.{table}]]", found=found)
 
 
-def _r9(ctx, pkg):
-    fn = pkg.method("Network", "species")
-    ctx.saw(NETF, "Network.species")
-    fl = Flow(fn, NETF)
-    rets = [f for f in fl.facts if f.kind == "return"]
-    found = "; ".join(show(simp(f.value))[:100] for f in rets)
+def class_resolver(pkg, cname):
+    """name -> FunctionDef of a method of the class (MRO), for value-flow inlining of small helper methods"""
+    def res(name):
+        return pkg.resolve(cname, name)[1]
+    return res
 
-    def unwrap(v):
-        while v[0] == "call" and v[1] in (("global", "list"), ("global", "tuple")) and len(v[2]) == 1:
+
+def _unwrap_seq(v):
+    """list(x) / tuple(x) / x.copy() / x[:] are the sequence x"""
+    while True:
+        if v[0] == "call" and v[1] in (("global", "list"), ("global", "tuple")) and len(v[2]) == 1 and not v[3]:
             v = v[2][0]
-        while v[0] == "meth" and v[2] == "copy" and not v[3]:
+        elif v[0] == "meth" and v[2] == "copy" and not v[3]:
             v = v[1]
-        return v
+        elif v[0] == "copy":
+            v = v[1]
+        else:
+            return v
 
-    def total(v):
-        """sorted(.., key=lambda x: (.., x))"""
-        if not (v[0] == "call" and v[1] == ("global", "sorted") and dict(v[3]).get("key") is not None):
-            return False
-        lams = [n for n in ast.walk(fn) if isinstance(n, ast.Lambda)]
-        if len(lams) != 1 or not isinstance(lams[0].body, ast.Tuple):
-            return False
-        arg = lams[0].args.args[0].arg
-        return ast.unparse(lams[0].body.elts[-1]) in (arg, f"{arg}.name")
-    # a memo (self._x) may stand between the computation and the return: it must hold the totally ordered list
-    memo = {f.target: unwrap(simp(f.value)) for f in fl.facts if f.kind == "attrstore"}
-    ok = bool(rets)
-    for f in rets:
-        v = unwrap(simp(f.value))
+
+def species_order(pkg):
+    """Network.species by ROLE, whatever the locals are called and whether the pieces sit inline or in helper methods:
+    -> (fn, flow, [(return fact, layers, members)]) where, for the value a return hands out (through a memo attribute if there is
+    one), layers = [key IR | None, ...] of the nested sorted(..) calls from the outermost inwards and members = the collection
+    the innermost one sorts."""
+    fn = pkg.method("Network", "species")
+    fl = Flow(fn, NETF, resolver=class_resolver(pkg, "Network"))
+    memo = {f.target: simp(f.value) for f in fl.facts if f.kind == "attrstore" and f.extra.get("obj") == SELF}
+    out = []
+    for f in fl.facts:
+        if f.kind != "return":
+            continue
+        v = _unwrap_seq(simp(f.value))
         if v[0] == "attr" and v[1] == SELF and v[2] in memo:
-            v = memo[v[2]]
-        ok = ok and total(v)
-    ctx.check(ok, "R9", "Network.species:total order", (NETF, fn.lineno),
-              "species are ordered by sorted(.., key=(connectivity, species)): ties are broken by the species' own order, so the order does not depend on set iteration" if ok else
-              "the species order is not a total order (no tie-break by the species itself): slots depend on set iteration order, which varies with the hash seed -- "
-              "artefacts rendered in different processes (macro header vs patch tables) disagree",
-              expected="sorted(speclist, key=lambda x: (len(connection[x]), x))", found=found)
-    # the unordered inputs are sorted before anything iterates them
-    # by role: the variable that is finally returned; its FIRST value must already be sorted
-    retname = None
-    for n in ast.walk(fn):
-        if isinstance(n, ast.Return) and n.value is not None:
-            for x in ast.walk(n.value):
-                if isinstance(x, ast.Name) and x.id in fl.assigns:
-                    retname = x.id
-    a = fl.assigns.get(retname, []) if retname else []
-    first_ok = bool(a) and simp(a[0][0])[0] == "call" and simp(a[0][0])[1] == ("global", "sorted")
-    ctx.check(first_ok, "R9", "Network.species:sorted input", (NETF, a[0][3] if a else fn.lineno), "the union of the reactant/product/required sets is sorted before use",
-              found=show(simp(a[0][0]))[:100] if a else "")
+            v = _unwrap_seq(memo[v[2]])
+        layers = []
+        while v[0] == "call" and v[1] == ("global", "sorted") and len(v[2]) == 1 and not (set(dict(v[3])) - {"key"}):
+            layers.append(dict(v[3]).get("key"))
+            v = _unwrap_seq(v[2][0])
+        out.append((f, layers, v))
+    return fn, fl, out
 
 
+def union_operands(v):
+    """operands of a set union spelled with `|` or .union(..), flattened"""
+    if v[0] == "binop" and v[1] == "BitOr":
+        return union_operands(v[2]) + union_operands(v[3])
+    if v[0] == "meth" and v[2] == "union" and not v[4]:
+        out = union_operands(v[1])
+        for a in v[3]:
+            out += union_operands(a)
+        return out
+    return [v]
+
+
+def _total_key(k):
+    """a sort key under which no two different species tie: no key at all (the species' own order), or a function returning a
+    tuple that ends in the species itself (or its name)"""
+    if k is None:
+        return True
+    if k[0] == "lambda" and len(k[1]) == 1 and k[2][0] == "tuple" and k[2][1]:
+        return k[2][1][-1] in (k[1][0], ("attr", k[1][0], "name"))
+    return False
+
+
+def _setness(v):
+    """'set' when the value is a set by construction (set(..), set comprehension / display, union / intersection / difference of
+    such, the cached species sets), 'list' when it is a sequence that keeps duplicates, else None (not understood)"""
+    k = v[0]
+    if k == "call" and v[1] in (("global", "set"), ("global", "frozenset")):
+        return "set"
+    if k == "set" or (k == "comp" and v[1] == "set"):
+        return "set"
+    if k == "attr" and v[1] == SELF and v[2] in ("_reactants", "_products"):
+        return "set"
+    if k == "binop" and v[1] in ("BitOr", "BitAnd", "Sub", "BitXor"):
+        a, b = _setness(v[2]), _setness(v[3])
+        return "set" if a == "set" or b == "set" else a if a == b else None
+    if k == "meth" and v[2] in ("union", "intersection", "difference", "symmetric_difference") and not v[4]:
+        return _setness(v[1])
+    if k in ("list", "tuple") or (k == "comp" and v[1] in ("list", "gen")) or (k == "binop" and v[1] == "Add"):
+        return "list"
+    if k == "attr" and v[1] == SELF and v[2] == "_required_species":
+        return "list"
+    return None
+
+
+def _opaque(v):
+    """not a collection whose kind (set / duplicate-keeping sequence) is understood: a helper method that could not be followed, a
+    loop-carried local, .. -- nothing is known about it"""
+    return _setness(v) is None
+
+
+def _r9(ctx, pkg):
+    fn, fl, rets = species_order(pkg)
+    ctx.saw(NETF, "Network.species")
+    found = "; ".join(show(simp(f.value))[:100] for f, _, _ in rets)
+    if not rets:
+        ctx.unrec("R9", "Network.species:total order", (NETF, fn.lineno), "Network.species has no return statement")
+        return
+    # the value handed out is sorted(.., key=K) with K total.  VIOLATION only for a key (or an unsorted collection) that is understood
+    verdicts = []
+    for f, layers, members in rets:
+        if layers and layers[0] is not None and layers[0][0] == "lambda":
+            verdicts.append("ok" if _total_key(layers[0]) else "bad")
+        elif layers and layers[0] is not None:
+            verdicts.append("unrec")                # a key function that is not defined here
+        elif layers:
+            verdicts.append("bad")                  # sorted(..) without the connectivity / species key
+        else:
+            verdicts.append("unrec" if _opaque(members) else "bad")
+    key = "Network.species:total order"
+    if "bad" not in verdicts and "unrec" in verdicts:
+        ctx.unrec("R9", key, (NETF, fn.lineno), f"what Network.species returns is not understood: {found}")
+    else:
+        ok = "bad" not in verdicts
+        ctx.check(ok, "R9", key, (NETF, fn.lineno),
+                  "species are ordered by sorted(.., key=(connectivity, species)): ties are broken by the species' own order, so the order does not depend on set iteration" if ok else
+                  "the species order is not a total order (no tie-break by the species itself): slots depend on set iteration order, which varies with the hash seed -- "
+                  "artefacts rendered in different processes (macro header vs patch tables) disagree",
+                  expected="sorted(speclist, key=lambda x: (len(connection[x]), x))", found=found)
+    # the unordered inputs are sorted before anything iterates them: what the final sort receives is itself a sorted(..) of the sets
+    verdicts = []
+    for f, layers, members in rets:
+        if len(layers) >= 2:
+            verdicts.append("ok" if _total_key(layers[1]) else "bad" if layers[1][0] == "lambda" else "unrec")
+        else:
+            verdicts.append("unrec" if _opaque(members) else "bad")
+    key = "Network.species:sorted input"
+    where = (NETF, rets[0][0].line)
+    if "bad" not in verdicts and "unrec" in verdicts:
+        ctx.unrec("R9", key, where, "what the final sort of Network.species receives is not understood: " + "; ".join(show(m)[:100] for _, _, m in rets))
+    else:
+        ctx.check("bad" not in verdicts, "R9", key, where, "the union of the reactant/product/required sets is sorted before use",
+                  found="; ".join(show(m)[:100] for _, _, m in rets))
+    # ... and what is sorted is a SET of species: two entries that are equal (one species spelled twice, e- / E) are one member
+    for f, layers, members in rets[:1]:
+        kind = _setness(members) if layers else None
+        key = "Network.species:members are a set"
+        if kind == "set":
+            ctx.ok("R9", key, (NETF, f.line), "the species are collected in a set (Species equality decides what is one species)")
+        elif kind == "list":
+            ctx.bad("R9", key, (NETF, f.line), "the species are collected in a list, not a set: an entry that occurs twice (a species required twice, or spelled e- and E) "
+                    "gets two slots and two IDX_ macros", expected="sorted(self._reactants | self._products | set(self._required_species))", found=show(members)[:140])
+        else:
+            ctx.unrec("R9", key, (NETF, f.line), f"the collection that is sorted into the species list is not understood: {show(members)[:140]}")
+
+
+SPEC_UNION = "        speclist = sorted(\n            self._reactants | self._products | set(self._required_species)\n        )\n\n        connection = {sp: set() for sp in speclist}\n"
 MUTANTS = [
     {"name": "enzo-groups-by-name", "file": PATCH, "old": "species_intersect_enzo = [s for s in species_network if s in species_enzo]", "new": "species_intersect_enzo = [s for s in species_network if s.name in set(EnzoPatch.enzo_defined_species_name)]", "rules": ["R11"]},
     {"name": "alias-symbol-table-memo", "edits": [
@@ -818,9 +1111,21 @@ MUTANTS = [
     {"name": "alias-I-times-charge", "file": SP, "old": '"I" * (self.charge + 1) if self.charge >= 0', "new": '"I" * self.charge if self.charge >= 0', "rules": ["R6"]},
     {"name": "alias-strip-nonword", "file": SP, "old": "        return self._alias\n\n    @alias.setter", "new": "        self._alias = re.sub(r'\\W', '', self._alias)\n        return self._alias\n\n    @alias.setter", "rules": ["R6"]},
     {"name": "alias-strip-star-inline", "file": SP, "old": '"M" * abs(self.charge),\n            )', "new": '"M" * abs(self.charge),\n            ).replace("*", "")', "rules": ["R6"]},
+    {"name": "alias-suffix-helper-single-M", "edits": [
+        {"file": SP, "old": '                "I" * (self.charge + 1) if self.charge >= 0 else "M" * abs(self.charge),\n', "new": "                self._charge_run(),\n"},
+        {"file": SP, "old": "    @alias.setter\n", "new": '    def _charge_run(self):\n        q = self.charge\n        if q >= 0:\n            return "I" * (q + 1)\n        return "M"\n\n    @alias.setter\n'}], "rules": ["R6"]},
+    {"name": "krome-cation-suffix-single-I", "file": KRF, "old": 'rate = re.sub(r"(idx_.?)p", r"\\1II", rate)', "new": 'rate = re.sub(r"(idx_.?)p", r"\\1I", rate)', "rules": ["R6"]},
+    {"name": "summary-alias-loop-skips-ice", "file": RENDER, "old": "        all_species = [x.name for x in net.species]\n        all_alias = [x.alias for x in net.species]\n",
+     "new": "        all_species = []\n        all_alias = []\n        for sp in net.species:\n            all_species.append(sp.name)\n            if not sp.is_surface:\n                all_alias.append(sp.alias)\n", "rules": ["R4"]},
     {"name": "alias-single-M", "file": SP, "old": 'else "M" * abs(self.charge),', "new": 'else "M",', "rules": ["R6"]},
     {"name": "grackle-HeII", "file": PATCH, "old": '        "HeII",\n        "HeIII",', "new": '        "HeI",\n        "HeIII",', "rules": ["R6"]},
     {"name": "wrapper-set-deleted", "file": WRAP, "old": "        {% set specnum = species.network | map(attribute='alias') | map('suffix', \"Num\") -%}\n        {% for s, n in zip(network.species, specnum) -%}\n          BaryonField", "new": "        {% for s, n in zip(network.species, specnum) -%}\n          BaryonField", "rules": ["R8"]},
+    {"name": "species-members-listed-not-set", "file": NETF, "old": SPEC_UNION,
+     "new": "        speclist = sorted(\n            [*(self._reactants | self._products), *[s for s in self._required_species if s not in self._reactants | self._products]]\n        )\n\n"
+            "        connection = {sp: set() for sp in speclist}\n", "rules": ["R9"]},
+    {"name": "macro-index-by-macro-loop-index1", "edits": [
+        {"file": MACROS, "old": "// clang-format off\n", "new": "{% macro define_index(label, slot) %}#define IDX_{{ label }} {{ slot }}{% endmacro %}\n// clang-format off\n"},
+        {"file": MACROS, "old": "#define IDX_{{ spec.alias }} {{ loop.index0 }}", "new": "{{ define_index(spec.alias, loop.index) }}"}], "rules": ["R4"]},
     {"name": "species-order-not-total", "file": NETF, "old": "speclist = sorted(speclist, key=lambda x: (len(connection[x]), x))", "new": "speclist = sorted(speclist, key=lambda x: len(connection[x]))", "rules": ["R9"]},
     {"name": "elem-macro-by-name", "file": MACROS, "old": "#define IDX_ELEM_{{ spec.element_count.keys() | first }} {{ loop.index0 }}", "new": "#define IDX_ELEM_{{ spec.name }} {{ loop.index0 }}", "rules": ["R4"]},
     {"name": "config-alias-from-gas", "file": CONF, "old": "self._network_alias = [x.alias for x in species]", "new": "self._network_alias = [x.alias for x in species if not x.is_surface]", "rules": ["R4"]},
@@ -828,6 +1133,26 @@ MUTANTS = [
     {"name": "hash-reads-name", "file": SP, "old": '                f"{self.basename}"\n                f"{self.charge}"', "new": '                f"{self.name}"\n                f"{self.charge}"', "rules": ["R7"]},
 ]
 BENIGN = [
+    {"name": "species-helper-method-and-named-key", "edits": [
+        {"file": NETF, "old": SPEC_UNION, "new": "        speclist = self._members_by_name()\n\n        connection = {sp: set() for sp in speclist}\n"},
+        {"file": NETF, "old": "        speclist = sorted(speclist, key=lambda x: (len(connection[x]), x))\n\n        return speclist\n",
+         "new": "        def by_connectivity(sp):\n            return len(connection[sp]), sp\n\n        return sorted(speclist, key=by_connectivity)\n\n"
+                "    def _members_by_name(self):\n        members = self._reactants.union(self._products) | set(self._required_species)\n        return sorted(members)\n"}]},
+    {"name": "alias-concatenated-with-suffix-helper", "edits": [
+        {"file": SP, "old": '            self._alias = "{}{}{}".format(\n                "G" if self.is_surface else "",\n                basename,\n                "I" * (self.charge + 1) if self.charge >= 0 else "M" * abs(self.charge),\n            )\n',
+         "new": '            prefix = "G" if self.is_surface else ""\n            self._alias = prefix + basename + self._charge_run()\n'},
+        {"file": SP, "old": "    @alias.setter\n", "new": '    def _charge_run(self):\n        q = self.charge\n        if q >= 0:\n            return "I" * (q + 1)\n        return "M" * abs(q)\n\n    @alias.setter\n'}]},
+    {"name": "krome-rewrites-as-compiled-table", "file": KRF,
+     "old": '        rate = re.sub(r"(\\d\\.?)d(\\-?\\d)", r"\\1e\\2", self.rate_string)\n        rate = re.sub(r"(idx_.?)p", r"\\1II", rate)\n        rate = re.sub(r"(idx_.?)m", r"\\1M", rate)\n        rate = re.sub(r"(idx_.?)\\)", r"\\1I)", rate)\n',
+     "new": '        rate = self.rate_string\n        for pat, rep in ((re.compile(r"(\\d\\.?)d(\\-?\\d)"), r"\\1e\\2"), (re.compile(r"(idx_.?)p"), r"\\1II"), (re.compile(r"(idx_.?)m"), r"\\1M"), (re.compile(r"(idx_.?)\\)"), r"\\1I)")):\n            rate = pat.sub(rep, rate)\n'},
+    {"name": "summary-lists-filled-in-one-loop", "file": RENDER, "old": "        all_species = [x.name for x in net.species]\n        all_alias = [x.alias for x in net.species]\n",
+     "new": "        all_species = []\n        all_alias = []\n        for sp in net.species:\n            all_species.append(sp.name)\n            all_alias.append(sp.alias)\n"},
+    {"name": "elem-symbol-through-set", "file": MACROS, "old": "{% for spec in network.elements %}\n#define IDX_ELEM_{{ spec.element_count.keys() | first }} {{ loop.index0 }}",
+     "new": "{% for elem in network.elements %}\n{% set symbol = elem.element_count | first %}\n#define IDX_ELEM_{{ symbol }} {{ loop.index0 }}"},
+    {"name": "index-macro", "edits": [
+        {"file": MACROS, "old": "// clang-format off\n", "new": "{% macro define_index(label, slot) %}#define IDX_{{ label }} {{ slot }}{% endmacro %}\n// clang-format off\n"},
+        {"file": MACROS, "old": "#define IDX_ELEM_{{ spec.element_count.keys() | first }} {{ loop.index0 }}", "new": "{{ define_index(\"ELEM_\" ~ (spec.element_count | first), loop.index0) }}"},
+        {"file": MACROS, "old": "#define IDX_{{ spec.alias }} {{ loop.index0 }}", "new": "{{ define_index(spec.alias, loop.index0) }}"}]},
     {"name": "loop-var-renamed", "file": MACROS, "old": "{% for spec in network.species %}\n#define IDX_{{ spec.alias }} {{ loop.index0 }}", "new": "{% for sp in network.species %}\n#define IDX_{{ sp.alias }} {{ loop.index0 }}"},
     {"name": "suffix-commuted", "file": SP, "old": '"I" * (self.charge + 1) if self.charge >= 0', "new": '(self.charge + 1) * "I" if self.charge >= 0'},
 ]
